@@ -182,3 +182,16 @@ func VerifNextMessageIDs(start uint32, n, g int) [][]uint32 {
 	wg.Wait()
 	return out
 }
+
+// HandleCancel builds a cancel frame for id and calls the real messageExchangeSet.handleCancel
+// (what the connection reader does for every cancel frame when PropagateCancel is set).
+func (s *VerifMexSet) HandleCancel(id uint32) {
+	f := NewFrame(16)
+	f.Header.ID = id
+	f.Header.messageType = messageTypeCancel
+	f.Header.SetPayloadSize(0)
+	s.ms.handleCancel(f)
+}
+
+// CountCalls calls the real countCalls (used by the idle sweep and Close).
+func (s *VerifMexSet) CountCalls() int { return s.ms.countCalls() }
